@@ -588,18 +588,18 @@ class InferenceManager:
                 },
             )
 
-        for index, query in enumerate(queries.conditionals.values()):
+        for index, (key, query) in enumerate(queries.conditionals.items()):
             query = str(query)
-            df.at[index, "index"] = results[query][0]
-            df.at[index, "result"] = results[query][1]
+            df.at[index, "index"] = results[key][0]
+            df.at[index, "result"] = results[key][1]
             df.at[index, "preprocessing_timed_out"] = self.epistemic_state[
                 "preprocessing_timed_out"
             ]
             df.at[index, "preprocessing_time"] = round(
                 self.epistemic_state["preprocessing_time"], decimals
             )
-            df.at[index, "inference_timed_out"] = results[query][2]
-            df.at[index, "inference_time"] = round(results[query][3], decimals)
+            df.at[index, "inference_timed_out"] = results[key][2]
+            df.at[index, "inference_time"] = round(results[key][3], decimals)
             df.at[index, "inference_system"] = self.epistemic_state["inference_system"]
             df.at[index, "smt_solver"] = self.epistemic_state["smt_solver"]
             df.at[index, "pmaxsat_solver"] = self.epistemic_state["pmaxsat_solver"]
@@ -615,7 +615,7 @@ class InferenceManager:
 
         # INFO-level logging for batch operation completion with performance summary
         total_inference_time = sum(
-            results[str(q)][3] for q in queries.conditionals.values()
+            results[k][3] for k in queries.conditionals
         )
         logger.info(
             "Inference batch processing completed",
